@@ -845,7 +845,9 @@ PROPS["C13"].update({
                   "exactly once (its role bit untouched); the sender detaching right after a mismatching receiver "
                   "registered, which makes the refused attacher the last one out and must destroy the resource exactly "
                   "once; an attach racing the teardown before the port is registered (refused as being cleaned up); "
-                  "forced removal of a dead peer with symbolic role / order.  Further slices (drop orders, second "
+                  "forced removal of a dead peer with symbolic role / order; both drop orders of an attached "
+                  "sender/receiver pair (not destroyed while the other side is attached, destroyed exactly once by the "
+                  "last detach; 11 min / 23 GB each).  Further slices (second "
                   "attach, single role + re-create, the other mismatching parameters) exist as tier 'extended' and are "
                   "not claimed.",
     "level_note": "one connection, buffer 1 / borrow 1 / 1 chunk / 1 channel; every attach costs ~10 M SAT variables: the "
@@ -896,6 +898,7 @@ c13_q_mismatch_buffer_same_role c13_q_race_detach_after_registration_mismatch
 c09_uis_history_cap3 c09_uis_history_cap4 c09_robust_history_cap3
 c03_seq_index_queue_cap3 c03_seq_overflow_queue_cap3 c03_seq_spsc_queue_cap3
 c03_s_overflow_cap1_producer_outer c03_s_overflow_cap1_consumer_outer
+c13_q_drop_sender_first c13_q_drop_receiver_first
 """.split())
 for _p in PROPS:
     for _h in PROPS[_p]["harnesses"]:
